@@ -80,6 +80,7 @@ type Sched struct {
 	yieldFiles  map[string]bool
 	yieldAll    bool
 	AutoTick    time.Duration // Now() advances the clock by this much on every call (0 = pure)
+	Drain       bool          // after the last main thread finished, run daemons to quiescence
 	NoPreemptAt map[string]bool
 }
 
@@ -108,6 +109,7 @@ type Options struct {
 	MaxTime    time.Duration
 	YieldFiles []string // files whose statement-level yields are scheduling points ("*" = all)
 	AutoTick   time.Duration
+	Drain      bool          // see Sched.Drain
 	StartClock time.Duration // virtual clock offset at which every execution starts
 }
 
@@ -126,6 +128,7 @@ func Run(opt Options, body func()) *Sched {
 		MaxTime:    opt.MaxTime,
 		TimerAlt:   opt.TimerAlt,
 		AutoTick:   opt.AutoTick,
+		Drain:      opt.Drain,
 		yieldFiles: map[string]bool{},
 	}
 	if s.MaxSteps == 0 {
@@ -382,17 +385,21 @@ func (s *Sched) schedule(site string, exiting bool) {
 				mainsLeft = true
 			}
 		}
-		if !mainsLeft {
-			s.finishExec()
-			continue
-		}
-		if s.Steps > s.MaxSteps {
-			s.Horizon = true
-			s.finishExec()
-			continue
-		}
 		en := s.enabled(me, exiting)
 		nextTimer := s.nextTimer()
+		if !mainsLeft {
+			// Drain: keep running spawned goroutines until nothing can move any more, so that the
+			// threads still alive at the end are exactly the ones blocked for good.
+			if !s.Drain || (len(en) == 0 && nextTimer == nil) {
+				s.finishExec()
+				continue
+			}
+		}
+		if s.Steps > s.MaxSteps {
+			s.Horizon = mainsLeft
+			s.finishExec()
+			continue
+		}
 		if len(en) == 0 {
 			if nextTimer != nil {
 				s.fire(nextTimer)
